@@ -114,6 +114,23 @@ theorem rfind_append (sep : Char) (a b : List Char) (h : sep ∉ b) :
   congr 1
   omega
 
+/-- every symbol of the charset and both separators are ASCII -/
+theorem charset_ascii : ∀ c ∈ bech32Charset, c.toNat < 128 := by decide
+
+theorem sep_ascii (k : BechKind) : k.sep.toNat < 128 := by cases k <;> decide
+
+theorem any_nonAscii_false (k : BechKind) (hrp chars : List Char) (hv : ValidHrp hrp)
+    (hc : ∀ c ∈ chars, c ∈ bech32Charset) :
+    ((hrp ++ [k.sep] ++ chars).any fun c => decide (c.toNat ≥ 128)) = false := by
+  rw [List.any_eq_false]
+  intro c hcm
+  simp only [List.mem_append, List.mem_singleton] at hcm
+  simp only [decide_eq_true_eq, not_le]
+  rcases hcm with (h | h) | h
+  · have := (hv.2 c h).2.1; omega
+  · rw [h]; exact sep_ascii k
+  · exact charset_ascii c (hc c h)
+
 /-! ### raw round trip -/
 
 /-- decoding `hrp ++ sep ++ symbols` where the symbols `d` already carry a valid checksum. -/
@@ -137,6 +154,7 @@ theorem bechDecodeRaw_of_verify (k : BechKind) (hrp : List Char) (d : List Nat)
     · rw [hc]; exact sep_notUpper k
     · exact charset_notUpper c (hcmem c hc)
   have hU : s.any asciiCase.isUpper = false := any_isUpper_false s hnu
+  have hA : (s.any fun c => decide (c.toNat ≥ 128)) = false := any_nonAscii_false k hrp chars hv hcmem
   have hL : s.flatMap asciiCase.lower = s := flatMap_lower s hnu
   have hR : rfind s k.sep = some hrp.length :=
     rfind_append k.sep hrp chars (fun h => sep_not_mem_charset k (hcmem _ h))
@@ -161,7 +179,7 @@ theorem bechDecodeRaw_of_verify (k : BechKind) (hrp : List Char) (d : List Nat)
   have hmap : chars.map (fun x => (bech32Charset.idxOf? x).getD 0) = d :=
     map_idxOf?_map_getD d hd
   unfold bechDecodeRaw
-  simp only [hU, hL, hR, Bool.and_false, Bool.or_false, Bool.false_eq_true, if_false, pure_bind,
+  simp only [hA, hU, hL, hR, Bool.and_false, Bool.or_false, Bool.false_eq_true, if_false, pure_bind,
     hT, hD, hne, hany, hclen, hall, hmap, hver, decide_false, Bool.not_true]
   rfl
 
@@ -185,6 +203,7 @@ theorem bechDecodeRaw_short (k : BechKind) (hrp : List Char) (d : List Nat)
     · rw [hc]; exact sep_notUpper k
     · exact charset_notUpper c (hcmem c hc)
   have hU : s.any asciiCase.isUpper = false := any_isUpper_false s hnu
+  have hA : (s.any fun c => decide (c.toNat ≥ 128)) = false := any_nonAscii_false k hrp chars hv hcmem
   have hL : s.flatMap asciiCase.lower = s := flatMap_lower s hnu
   have hR : rfind s k.sep = some hrp.length :=
     rfind_append k.sep hrp chars (fun h => sep_not_mem_charset k (hcmem _ h))
@@ -209,7 +228,7 @@ theorem bechDecodeRaw_short (k : BechKind) (hrp : List Char) (d : List Nat)
   have hmap : chars.map (fun x => (bech32Charset.idxOf? x).getD 0) = d :=
     map_idxOf?_map_getD d hd
   unfold bechDecodeRaw
-  simp only [hU, hL, hR, Bool.and_false, Bool.or_false, Bool.false_eq_true, if_false, pure_bind,
+  simp only [hA, hU, hL, hR, Bool.and_false, Bool.or_false, Bool.false_eq_true, if_false, pure_bind,
     hT, hD, hne, hany, hclen, decide_false, decide_true, Bool.true_or, if_true]
   rfl
 
@@ -374,7 +393,8 @@ theorem bech32_decode_encode_nil (hrp : List Char) (hv : ValidHrp hrp) :
 
 /-- `bechDecodeRaw` in flat form. -/
 def bechDecodeRawFlat (U : CaseOracle) (k : BechKind) (s : List Char) : R (List Char × List Nat) :=
-  if (s.any U.isLower && s.any U.isUpper) = true then .error .value
+  if (s.any fun c => decide (c.toNat ≥ 128)) = true then .error .value
+  else if (s.any U.isLower && s.any U.isUpper) = true then .error .value
   else match rfind (s.flatMap U.lower) k.sep with
     | none => .error .value
     | some p =>
@@ -391,9 +411,11 @@ theorem bechDecodeRaw_eq_flat (U : CaseOracle) (k : BechKind) (s : List Char) :
     bechDecodeRaw U k s = bechDecodeRawFlat U k s := by
   unfold bechDecodeRaw bechDecodeRawFlat
   simp only [Bool.or_false]
-  split
-  · rfl
-  · simp only [bind, Except.bind, pure, Except.pure]
+  cases hA : (s.any fun c => decide (c.toNat ≥ 128))
+  case true => rfl
+  cases hM : (s.any U.isLower && s.any U.isUpper)
+  case true => rfl
+  · simp only [Bool.false_eq_true, if_false, bind, Except.bind, pure, Except.pure]
     cases rfind (s.flatMap U.lower) k.sep with
     | none => rfl
     | some p =>
@@ -468,6 +490,8 @@ theorem bechDecodeRaw_sound (U : CaseOracle) (k : BechKind) {s hrp : List Char} 
     (h : bechDecodeRaw U k s = .ok (hrp, data)) : bechEncodeRaw k hrp data = s.flatMap U.lower := by
   rw [bechDecodeRaw_eq_flat] at h
   unfold bechDecodeRawFlat at h
+  split at h
+  · cases h
   split at h
   · cases h
   · cases hr : rfind (s.flatMap U.lower) k.sep with
